@@ -1,3 +1,4 @@
+import re
 from typing import Mapping
 from pathlib import Path
 
@@ -8,7 +9,12 @@ def from_trace_codes_text(codes_text: str) -> Mapping[int, str]:
     :param codes_text: Trace codes file data.
     :return: Mapping between code and event name.
     """
-    return {int(s[0], 16): s[1] for s in map(lambda l: l.split(), codes_text.splitlines())}
+    # Lines end at LF, CRLF or CR. str.splitlines() also breaks at form feeds, U+2028 and the like, which may be part of a comment.
+    lines = re.split('\r\n|\r|\n', codes_text)
+    if lines and not lines[-1]:
+        # The text ends with a line end.
+        lines.pop()
+    return {int(s[0], 16): s[1] for s in map(lambda l: l.split(), lines)}
 
 
 def from_trace_codes_file(path: str) -> Mapping[int, str]:
